@@ -362,7 +362,8 @@ var testPool = []testSpec{
 	{"has_date", noArg}, {"has_date_lt", dateArg}, {"has_date_eq", dateArg}, {"has_date_gt", dateArg},
 	{"has_time", noArg}, {"has_phone", func(g *G) []string {
 		if g.T.Chance("phonecountry", 1, 2) {
-			return []string{[]string{"US", "RW", "XX"}[g.T.Pick("phonecc", 3)]}
+			// (the editor stores a country left blank as an empty argument)
+			return []string{[]string{"US", "RW", "XX", ""}[g.T.Pick("phonecc", 4)]}
 		}
 		return nil
 	}},
